@@ -44,6 +44,12 @@ CHECKS = {
     "C12": ("exploration", "round-trip monitors over generated values per store domain and mount kind",
             "Held on the sampled values: read-after-write equal with identical types for every bundled store, direct and mounted; modified time None exactly before the first write and non-decreasing.",
             "values from each store's documented domain", "3/C12"),
+    "C13": ("exploration", "identity-level structural snapshots of Plan/Registry before vs after every operation kind; concurrent runs vs reference",
+            "Held on the sampled operations (run with every outcome, dry_run, render, concurrent runs, copy mutations): the caller's Plan and Registry snapshots were identical before and after; concurrent runners returned the reference value.",
+            "snapshots compare identities of nodes, edge keys, RegistryValues, stores and stack frames", "3/C13"),
+    "C15": ("exploration", "online trace-specification checker on a recording ProgressObserver + independent execution counters",
+            "Held on the sampled runs: enter/exit bracketing, totals before running, per-thread/per-scope balance, completed==total after success, run/stale totals equal to independently counted executions, composite members received identical per-thread sequences.",
+            "recording observer stamps under its own lock; scope = user scope + fully qualified function name", "3/C15"),
     "C14": ("exploration", "event-log monitor during dry runs + differential execution of the returned physical plan vs the real run from a restored state",
             "Held on the sampled states: dry runs stamped only modified-time queries and changed nothing; executing all nodes of the returned plan alone gave the same event multiset, store contents and output as the real run.",
             "snapshot/restore of in-memory stores", "3/C14"),
